@@ -129,7 +129,7 @@ Definition is_2_part (alts : list N) (ballots : list (list N)) : option (list (l
 (* order is a permutation of the list alts (multiset equality) *)
 Definition count (a : N) (l : list N) : nat := length (filter (N.eqb a) l).
 Definition perm_of (alts order : list N) : bool :=
-  (length order =? length alts) && forallb (fun a => count a alts =? count a order) alts.
+  forallb (fun a => count a alts =? count a order) (alts ++ order).
 
 (* CI: order is a permutation of ALL alternatives and every approval set is an interval of it *)
 Definition ci_check (alts : list N) (ballots : list (list N)) (order : list N) : bool :=
@@ -209,16 +209,14 @@ Definition de_decide (alts : list N) (ballots : list (list N)) : bool :=
 (* PART: any two approval sets are equal or disjoint *)
 Definition part_decide (ballots : list (list N)) : bool :=
   forallb (fun b1 => forallb (fun b2 => set_eq b1 b2 || negb (meets b1 b2)) ballots) ballots.
-(* the distinct approval sets, first occurrences *)
-Fixpoint distinct_sets (ballots : list (list N)) (acc : list (list N)) : list (list N) :=
-  match ballots with
-  | [] => acc
-  | b :: bs => if existsb (fun s => set_eq s b) acc then distinct_sets bs acc
-               else distinct_sets bs (acc ++ [b])
-  end.
-(* 2PART: pairwise equal-or-disjoint, one or two distinct sets, two sets cover all alternatives.
-   (is_2_part answers False on a profile without any ballot: zero distinct approval sets.) *)
+(* 2PART: any two approval sets are equal or disjoint, there is at least one ballot, every approval set equals
+   the first one (s) or one other (t), and if s and t differ they cover all the alternatives.
+   (is_2_part answers False on a profile without any ballot, i.e. with zero distinct approval sets.) *)
 Definition part2_decide (alts : list N) (ballots : list (list N)) : bool :=
-  let d := distinct_sets ballots [] in
   part_decide ballots &&
-  ((length d =? 1) || ((length d =? 2) && set_eq (concat d) alts)).
+  match ballots with
+  | [] => false
+  | s :: _ =>
+      existsb (fun t => forallb (fun b => set_eq b s || set_eq b t) ballots &&
+                        (set_eq s t || set_eq (s ++ t) alts)) ballots
+  end.
